@@ -3,7 +3,8 @@
 
    Transcribed function by function from lib/hdb.c:
      qb_hdb_handle_create / _get / _put / _destroy / _refcount_get,
-     qb_hdb_iterator_reset / _next.
+     qb_hdb_iterator_reset / _next, qb_hdb_base_convert / _nocheck_convert
+     (qb_hdb_handle_get_always is qb_hdb_handle_get: the driver maps it to Get).
    Conventions (DESIGN.md section 3): a handle is the uint64_t value as a Z in [0, 2^64);
    `check' and `handle' are the int32_t halves exactly as the C code computes them;
    object instances are allocation-order ids (1, 2, ...; 0 = NULL); the destructor
@@ -29,6 +30,10 @@ Definition NOCHECK : Z := -1.                                 (* (int32_t) UINT3
 (* (((uint64_t) check) << 32) | handle   for 0 <= check < 2^31, 0 <= handle < 2^31 *)
 Definition mk_handle (check idx : Z) : Z := (check mod two32) * two32 + idx.
 
+(* qb_hdb_base_convert: handle & UINT32_MAX;  qb_hdb_nocheck_convert: ((uint64_t) UINT32_MAX) << 32 | handle *)
+Definition base_convert (h : Z) : Z := h mod two32.
+Definition nocheck_convert (i : Z) : Z := (two32 - 1) * two32 + i mod two32.
+
 Record slot := { s_state : Z; s_check : Z; s_ref : Z; s_inst : Z }.
 
 (* memset(entry, 0, sizeof *entry) *)
@@ -45,6 +50,7 @@ Definition handle_count (d : hdb) : Z := Z.of_nat (length (slots d)).
 
 Inductive op :=
 | Create (chk : Z)          (* chk = what random() returns *)
+| CreateFail               (* create whose instance allocation fails (malloc returns NULL) *)
 | Get (h : Z)
 | Put (h : Z)
 | Destroy (h : Z)
@@ -92,6 +98,26 @@ Definition do_create (d : hdb) (chk : Z) : hdb * out :=
       ({| slots := slots d ++ [fresh]; iter := iter d;
           next_inst := next_inst d + 1; dlog := dlog d |},
        ORes 0 (mk_handle chk n))
+  end.
+
+(* qb_hdb_handle_create when malloc(instance_size) fails: the slot was already reserved
+   (ref_count incremented on a recycled slot / handle_count incremented for a fresh one) and
+   stays EMPTY; -ENOMEM *)
+Definition do_create_fail (d : hdb) : hdb * out :=
+  match find_empty (slots d) 0 with
+  | Some i =>
+      match nth_error (slots d) (Z.to_nat i) with
+      | Some s =>
+          ({| slots := upd (slots d) (Z.to_nat i)
+                           {| s_state := s_state s; s_check := s_check s; s_ref := s_ref s + 1; s_inst := s_inst s |};
+              iter := iter d; next_inst := next_inst d; dlog := dlog d |}, ORes (- HDB_ENOMEM) 0)
+      | None => (d, ORes (- HDB_ENOMEM) 0)
+      end
+  | None =>
+      let n := handle_count d in
+      if (HDB_ARRAY_MAX_ELEMENTS <? n + 1) then (d, ORes (- HDB_EINVAL) 0)
+      else ({| slots := slots d ++ [zero_slot]; iter := iter d; next_inst := next_inst d; dlog := dlog d |},
+            ORes (- HDB_ENOMEM) 0)
   end.
 
 Definition check_ok (chk : Z) (s : slot) : bool :=
@@ -172,6 +198,7 @@ Fixpoint iter_loop (fuel : nat) (d : hdb) (res : Z) : hdb * out :=
 Definition step (d : hdb) (o : op) : hdb * out :=
   match o with
   | Create chk => do_create d chk
+  | CreateFail => do_create_fail d
   | Get h => let '(d', r, inst) := do_get d h in (d', ORes r inst)
   | Put h => let '(d', r) := do_put d h in (d', ORes r 0)
   | Destroy h => let '(d', r) := do_destroy d h in (d', ORes r 0)
